@@ -144,6 +144,13 @@ def run(ctx):
     for v in viol[:3]:
         ctx.violation('coexec', v)
     mm = mism_all + e2e_mism
+    if mism_all and not viol:
+        # failure search: a state on which the implementation's output behaves differently from its input
+        found = semantic_search(mism_all, rng)
+        ctx.cov['correspondence']['failure search (unit mismatches co-executed)'] = {'searched': min(len(mism_all), 300), 'behaviour_changed': len(found)}
+        for v in found[:3]:
+            ctx.violation('unit', v)
+        viol += found
     if mm and not viol:
         ctx.violation_noinput('correspondence Model/Optimize.v vs AssemblyCode::optimize broke on %d inputs; first: %s'
                               % (len(mm), json.dumps(mm[0])[:3000]), 'corr-M:optimize')
